@@ -212,6 +212,16 @@ def grain(f):
   return g
 
 
+def code_tolerance(f, x, y, k):
+  """Tolerance (in code units) for `y/(alpha*step)` being an integer: 0 for dyadic scales; for a
+  non-dyadic constant alpha the product alpha*code and the sum x + (-x + xq) are rounded in float32."""
+  if is_dyadic(f.alpha):
+    return 0.0
+  mag = np.maximum(np.abs(np.asarray(x, dtype=np.float64)), np.abs(np.asarray(y, dtype=np.float64))).astype(np.float32)
+  ulp = np.spacing(np.maximum(mag, np.float32(1e-30))).astype(np.float64)
+  return 4.0 * ulp / (abs(f.alpha) * f.step) + 4e-7 * np.maximum(1.0, np.abs(k))
+
+
 def is_dyadic(v):
   if v == 0:
     return True
